@@ -15,11 +15,14 @@ import (
 
 type stackStorage[V any] struct {
 	data []V
+	// base is the depth of the stack this storage was split off from (see
+	// NewChildStack); it counts towards the recursion limit.
+	base int
 }
 
 func (s *stackStorage[V]) set(n int, v V) {
 	if n == len(s.data) {
-		if n > 10000 {
+		if n+s.base > 10000 {
 			panic("stack overflow; maybe a recursive function does not terminate")
 		}
 		s.data = append(s.data, v)
@@ -41,6 +44,22 @@ type Stack[V any] struct {
 func NewEmptyStack[V any]() Stack[V] {
 	return Stack[V]{
 		storage: &stackStorage[V]{data: make([]V, 0, 50)},
+		offs:    0,
+		size:    0,
+	}
+}
+
+// NewChildStack creates an empty stack with a storage of its own, to be used
+// where the storage of s must not be shared, e.g. by another goroutine. The
+// depth of s is inherited, so the recursion limit also holds if a recursion
+// passes through such stacks.
+func (s Stack[V]) NewChildStack() Stack[V] {
+	base := s.offs + s.size
+	if s.storage != nil {
+		base += s.storage.base
+	}
+	return Stack[V]{
+		storage: &stackStorage[V]{data: make([]V, 0, 50), base: base},
 		offs:    0,
 		size:    0,
 	}
